@@ -266,7 +266,7 @@ def run(ck):
     items, meta = [], []
     nforced = 0
     nsys, skipped = 0, {"wrapped-cluster(out of domain)": 0, "too-large": 0, "no-jumps": 0}
-    budget = ck.n(26, 120)
+    budget = ck.n(16, 110)
     outdom_viol = 0
     # crystals with several mobile sites per cell whose jumps connect DIFFERENT basis indices (the initial- and final-site
     # halves of the barrier expansion then use different cluster lists): always part of the run, every variant
